@@ -22,7 +22,12 @@ TRUSTED = ['Python primitives are parameters (`Prims`), validated by the corresp
 ASSUMPTIONS = ['lazily evaluated generators (Iter) capture a scope and run later: C17; here the eager fragment',
                'Regex named groups as binders are not generated (the regex engine is outside the model)']
 MANIFEST = dict(
-    text=("Lean 4 theorems: the ChainMap-of-frames scope glom uses satisfies the 24 lexical-scoping laws (child sees "
+    text=("Lean 4 refinement theorem c07_refines_lexical: for every scope representation satisfying 24 lexical-scoping laws, "
+          "the code-shaped interpreter computes on a scope exactly what the reference environment-passing semantics computes "
+          "on its observations (same state, value/error, corresponding scope), for every spec, target, fuel and Python-"
+          "primitive instantiation; hence the outcome depends on the scope only through what is lexically visible, and the "
+          "ChainMap-frames model equals the lexical reference on every top-level call (c07_model_eq_reference). Further: "
+          "the ChainMap-of-frames scope glom uses satisfies the 24 lexical-scoping laws (child sees "
           "parent, a write hits the head frame only and shadows, chain_child forwards the finished step's bindings with the "
           "owner's mode); dict/list/Coalesce/And/Or/Fill containers call the evaluator at their own scope only (sibling "
           "isolation, for every evaluator); chains forward bindings; shadowing, nearest Ref, Spec(scope=) subtree, per-call "
@@ -33,7 +38,7 @@ MANIFEST = dict(
           "parameters; hand-written interpreter model validated by the correspondence on every run. The theorems "
           "characterise the model's scoping law by law; that the real interpreter writes only the head frame is "
           "validated by the correspondence, not proved from the Python source."),
-    technique='Lean 4 algebraic laws of the scope representation + isolation lemmas over the interpreter model + differential correspondence',
+    technique='Lean 4 refinement proof (representation independence of a scope-generic monadic interpreter: ChainMap frames = lexical environment) + algebraic laws + differential correspondence',
     ref='DESIGN.md §3 C07')
 
 
